@@ -79,7 +79,9 @@ JudgeMake(e, i) ==
                      [] i.op \in {"make_elastic_scaled_integer_c", "make_static_number_c"} ->
                           rs.k = "scaled" /\ ex = tz /\ (rs.digits = ud - tz \/ (IsZero(v) /\ rs.digits <= 1))
                      [] OTHER -> TRUE
-        cls == <<"Make", i.op>>
+        \* -2^k: the value whose used-digit count k gives a symmetric elastic range that excludes it (known finding)
+        negPow2 == v.n /\ BitLen(Abs(v)) - 1 = TrailingZeros(Abs(v))
+        cls == <<"Make", i.op, IF negPow2 THEN "neg_pow2" ELSE "">>
     IN [d |-> (IF e.out # "ok" THEN PDiag(e.out, FALSE) ELSE IF ~valueOK THEN "wrong_value" ELSE IF ~shapeOK THEN "wrong_type" ELSE "ok"),
         nt |-> TRUE, cls |-> cls]
 =============================================================================
